@@ -369,39 +369,40 @@ def cont_ok(m, n, ip, lp, disco):
 def conds(tier):
     q = tier == "quick"
     cs = []
-    for k in ([3, 4, 5, 6] if q else [4, 5, 6, 7, 8]):
+    for k in ([3, 4, 5, 6] if q else [4, 5, 6, 7]):
         sh = ["emptypos"] + (["c1", "c2"] if k >= 5 else []) + (["c3"] if k >= 7 else []) + (["c4"] if k >= 8 else [])
         cs.append(Cond("automaton-k%d" % k, "harness.c01:automaton",
                        [P("c%d" % i, "int", 0, 4) for i in range(1, k + 1)] + [P("emptypos", "bool"), P("firstid", "int", None, None)],
                        fixed={"k": k}, shard=sh, timeout=600 if q else 3000, functions=FUNCS[:2],
                        note="all 4^%d class sequences; brackets_firstid: unbounded symbolic integer" % k))
-    shapes = [(2, 2), (2, 3), (3, 3)] if q else [(2, 2), (2, 3), (3, 3), (3, 4), (4, 4)]
+    shapes = [(2, 2), (2, 3), (3, 3)] if q else [(2, 2), (2, 3), (3, 3), (3, 4)]
     for (m, n) in shapes:
         big = m * n >= 9
+        tie = q or m * n > 6        # large shapes: option selectors tied to each other (every value of every selector still occurs)
         ipn = ", ".join("ip%d" % i for i in range(1, m))
         lpn = ", ".join("lp%d" % j for j in range(1, n + 1))
         cs.append(Cond("export-m%d-n%d" % (m, n), "harness.c01:exportfile",
                        e1_params(m, n) + [P("v4", "bool"), P("lay", "int", 0, 3), P("hdr", "bool"), P("sidsel", "int", 0, 3),
                                           P("cont", "bool"), P("wsel", "int", 0, len(WORDS)), P("gz", "bool")],
-                       fixed={"m": m, "n": n}, pre=[e1_wf_expr(m, n)] + (["sidsel == lay and wsel == (lay * 3 + (5 if v4 else 0)) % 9 and gz == hdr"] if q else
+                       fixed={"m": m, "n": n}, pre=[e1_wf_expr(m, n)] + (["sidsel == lay and wsel == (lay * 3 + (5 if v4 else 0)) % 9 and gz == hdr"] if tie else
                                                                     ["wsel < 3 or lay == 0"]),
-                       shard=["v4", "lay"] + (["hdr", "cont"] if not q else []) + (["lp1"] if big else []),
+                       shard=["v4", "lay"] + (["hdr", "cont"] if not tie else []) + (["lp1"] if big else []) + (["lp2"] if m * n >= 16 else []),
                        timeout=600 if q else 3000, functions=FUNCS[3:6] + FUNCS[8:]))
         cs.append(Cond("brackets-m%d-n%d" % (m, n), "harness.c01:bracketfile",
                        e1_params(m, n) + [P("disco", "bool"), P("wo", "int", 0, 2), P("wk", "int", 0, 3), P("wc", "int", 0, 2),
                                           P("sp", "int", 0, 3), P("er", "bool"), P("firstid", "int", None, None), P("wsel", "int", 0, len(WORDS_BR))],
                        fixed={"m": m, "n": n},
                        pre=[e1_wf_expr(m, n), "_h.cont_ok(%d, %d, [%s], [%s], disco)" % (m, n, ipn, lpn), "not disco or (wk < 2 and sp == 0)"] +
-                       (["wsel == (wk * 4 + wo * 3 + (7 if er else 0)) % 10 and wc == wo and sp == (0 if disco else wk)"] if q else ["wsel < 3 or (wo == 0 and wc == 0)"]),
-                       shard=["disco", "wk"] + (["er", "wo"] if not q else []) + (["lp1"] if big else []),
+                       (["wsel == (wk * 4 + wo * 3 + (7 if er else 0)) % 10 and wc == wo and sp == (0 if disco else wk)"] if tie else ["wsel < 3 or (wo == 0 and wc == 0)"]),
+                       shard=["disco", "wk"] + (["er", "wo"] if not tie else []) + (["lp1"] if big else []) + (["lp2"] if m * n >= 16 else []),
                        skip=lambda sf: sf["disco"] and sf["wk"] >= 2, timeout=600 if q else 3000, functions=FUNCS[:3]))
         cs.append(Cond("tiger-m%d-n%d" % (m, n), "harness.c01:tigerfile",
                        e1_params(m, n) + [P("ids", "int", 0, 3), P("xr", "bool"), P("pn", "bool"), P("pe", "bool"), P("pa", "bool"),
                                           P("se", "bool"), P("cont", "bool"), P("wsel", "int", 0, len(WORDS)), P("enc", "int", 0, 2)],
                        fixed={"m": m, "n": n},
-                       pre=[e1_wf_expr(m, n)] + (["pe == pn and pa == xr and se == cont and wsel == (ids * 3 + (4 if pn else 0)) % 9 and enc == (1 if se else 0)"] if q else
+                       pre=[e1_wf_expr(m, n)] + (["pe == pn and pa == xr and se == cont and wsel == (ids * 3 + (4 if pn else 0)) % 9 and enc == (1 if se else 0)"] if tie else
                                                 ["wsel < 3 or (ids == 0 and not se)", "enc == 0 or not pa"]),
-                       shard=["ids", "xr"] + (["pn", "cont"] if not q else []) + (["lp1"] if big else []),
+                       shard=["ids", "xr"] + (["pn", "cont"] if not tie else []) + (["lp1"] if big else []) + (["lp2"] if m * n >= 16 else []),
                        timeout=600 if q else 3000, functions=FUNCS[6:8]))
     cs.append(Cond("options", "harness.c01:options",
                    [P("dl", "int", 0, len(DLABELS)), P("dp", "int", 0, len(DLABELS)), P("pw", "int", 0, len(PWORDS)),
